@@ -13,7 +13,7 @@ META = {
             "a let/use statement the initialiser is visited in the old scope before the new scope is allocated, the binders go into the "
             "new scope, and later statements see it; S4 name lookup walks expression scopes innermost-first, then module values, then "
             "built-ins; the module scope puts functions/constants/variants into values, types/aliases into types, and imports only "
-            "public declarations. One obligation per variant / call site. S6-S8 qualified values, import namespaces (see DESIGN). S9 no castable node consists of exactly one node of its own kind (lib/shape.py: children of every finish_node site), so AstPtr = (kind, range) identifies a binder; S10 a NameRef under MODULE_NAME_REF is resolved as a module before the value namespace is tried; S11 the pattern of a let / use statement is lowered whatever its right-hand side is.",
+            "public declarations. One obligation per variant / call site. S6-S8 qualified values, import namespaces (see DESIGN). S9 no castable node consists of exactly one node of its own kind (lib/shape.py: children of every finish_node site), so AstPtr = (kind, range) identifies a binder; S10 a NameRef under MODULE_NAME_REF is resolved as a module before the value namespace is tried; S11 the pattern of a let / use statement is lowered whatever its right-hand side is. S12 lower_expr_stmt never hands its statement list to a nested call of itself; S13 a module resolution for the base of `base.label` is recorded only after the base's type was tested.",
     "explanation": "Decides the construction shape that Gleam's scoping rules require (innermost binder wins, a let binder is not visible "
                    "in its own initialiser, clause/lambda/use bindings do not escape, values and types are separate namespaces). That "
                    "the classifier maps every syntactic position to the right lookup is behavioural and not decided.",
@@ -376,6 +376,7 @@ def run(F, res, tier):
     _c06.node_identity_rules(F, res, "S9")
     module_qualifier_contexts(F, res)
     binders_independent_of_initialiser(F, res)
+    statement_blocks_and_field_access(F, res)
     # ---- S4
     rn = F.fn("ide::def::resolver::Resolver::resolve_name")
     names = [(b, FL.short(callee(t) or callee_def(t))) for b, t in rn.calls()]
@@ -895,3 +896,53 @@ def binders_independent_of_initialiser(F, res, rule="S11"):
 def thorough(F, res):
     from lib import shape as _sh
     _sh.crosscheck(F, res)
+
+
+def statement_blocks_and_field_access(F, res):
+    """S12: a `{ .. }` in statement position is its own scope: lower_expr_stmt never hands the enclosing statement list to a nested
+    call of itself (binders of the inner block would stay visible after it). S13: in `base.label` a local record wins over an
+    imported module of the same name: the inferencer records a module resolution for the base only on paths on which the
+    test of the base's type (is it a record with that field?) has already been made."""
+    f = F.fn("ide::def::body::BodyLowerCtx::lower_expr_stmt")
+    bad = []
+    for q in [f.path] + list(F.closures_of(f.path)):
+        g = F.fns[q]
+        d = FL.Defs(g)
+        for b, t in g.calls():
+            if (callee(t) or "") != f.path or len(t["args"]) < 2:
+                continue
+            o = d.origin_op(t["args"][1])
+            src = o
+            if q != f.path:
+                idx = FL.closure_env_field(o)
+                if idx is not None:
+                    _p, src = FL.upvar_origin(F, q, idx)
+            base = src
+            while base.get("k") == "field":
+                base = base["base"]
+            if base.get("k") == "arg" and base.get("n") == 2:
+                bad.append(t["ln"])
+    res.ob("S12", "statement-block-is-a-scope", "a block in statement position is lowered as a nested Expr::Block: lower_expr_stmt does not pass the "
+           "statement list it was given to a nested call of itself", not bad, where=f.loc(bad[0]) if bad else f.loc(),
+           how="nested calls that push into the caller's list at lines %s" % bad if bad else "no call of lower_expr_stmt receives the caller's list")
+    g = F.fn("ide::ty::infer::InferCtx::infer_expr_inner")
+    d = FL.Defs(g)
+    ins = []
+    for b, t in g.calls():
+        if FL.short(callee(t) or callee_def(t) or "").endswith("::insert"):
+            o = d.origin_op(t["args"][0])
+            if o.get("k") == "field" and any(isinstance(e, dict) and e.get("n") == "module_resolution" for e in o.get("proj", [])):
+                ins.append((b, t))
+    tests = []
+    for b in sorted(g.reachable()):
+        t = g.term(b)
+        if t["k"] != "switch":
+            continue
+        l = op_local(t["op"])
+        o = d.origin(l) if l is not None else {}
+        if o.get("k") == "rv" and o["rv"]["k"] == "discr" and o["rv"]["of"] in ("ide::ty::Ty", "ide::ty::infer::Ty"):
+            tests.append(b)
+    ok = bool(ins) and all(any(g.dominates(tb, b) for tb in tests) for b, _ in ins)
+    res.ob("S13", "field-access/record-before-module", "`base.label` records a module resolution for its base only after the base's inferred type was "
+           "tested (a local record of the name of an imported module is not taken for the module)", ok, where=g.loc(ins[0][1]["ln"]) if ins else g.loc(),
+           how="module_resolution inserts: %d, each dominated by a test of the base's type (%d tests on Ty): %s" % (len(ins), len(tests), ok))
